@@ -198,6 +198,8 @@ func TestVerifC01(t *testing.T) {
 				b = m2.Bytes()
 				cs.Op2, cs.Path2 = m2.Op, m2.Path
 				key += "|" + m2.Desc()
+				// pairs: one class per mechanism (which of the two mutations matters is not decided here)
+				op, loc = strings.Split(m.Op, ":")[0]+"+"+strings.Split(m2.Op, ":")[0], "pair"
 			}
 			if string(b) == string(d.Raw) {
 				key = ""
@@ -216,14 +218,20 @@ func TestVerifC01(t *testing.T) {
 			// verification succeeded although what the node reads changed
 			cs.Input = string(b)
 			cls := "defined-term-changed|" + d.Kind + "-" + d.Format + "|" + strings.Split(op, ":")[0] + "|" + loc
-			what := fmt.Sprintf("%s still verifies after %s although the node now reads a different document (observation function differs)", d.Name, m.Desc())
+			desc := m.Desc()
+			if m2 != nil {
+				desc += " followed by " + m2.Desc()
+			}
+			what := fmt.Sprintf("%s still verifies after %s although the node now reads a different document (observation function differs)", d.Name, desc)
 			if jsonld.AllFieldsDefined(e.loader.DocumentLoader(), b) != nil {
 				// the mutant contains terms the JSON-LD context does not define: canonicalisation drops them silently
 				cls = "undefined-term|" + d.Kind + "-" + d.Format + "|" + loc
-				what = fmt.Sprintf("%s still verifies after %s: members / values that the JSON-LD context does not define are dropped by canonicalisation and are not covered by the proof, yet the node returns and stores them (the issuer's own AllFieldsDefined check refuses this document)", d.Name, m.Desc())
+				what = fmt.Sprintf("%s still verifies after %s: members / values that the JSON-LD context does not define are dropped by canonicalisation and are not covered by the proof, yet the node returns and stores them (the issuer's own AllFieldsDefined check refuses this document)", d.Name, desc)
 			}
 			r.Outcome("tamper accepted, observation CHANGED")
-			r.Observation("accepted-with-changed-observation|"+strings.Split(cls, "|")[0]+"|"+strings.Split(op, ":")[0]+"|"+loc, d.Name+": "+m.Desc())
+			if m2 == nil {
+				r.Observation("accepted-with-changed-observation|"+strings.Split(cls, "|")[0]+"|"+strings.Split(op, ":")[0]+"|"+loc, d.Name+": "+desc)
+			}
 			r.Violation("C01|tamper|"+cls, what, cs)
 		}
 		for _, m := range singles {
